@@ -117,6 +117,14 @@ func init() {
 	envFuncs["strings.HasPrefix"] = func(fc *FnCtx, fr *Frame, st *State, reach string, args []Val, call ssa.CallInstruction) Val {
 		return boolVal(sx("str.prefixof", args[1].S, args[0].S))
 	}
+	envFuncs["(*math/rand.Rand).Intn"] = func(fc *FnCtx, fr *Frame, st *State, reach string, args []Val, call ssa.CallInstruction) Val {
+		n := args[len(args)-1]
+		fc.oblige(fr, "panic", "rand.Intn: argument must be positive", reach, sx(">", n.S, "0"), false, nil)
+		r := fc.sc.fresh("intn", "Int")
+		fc.sc.assume(tAnd(sx("<=", "0", r), sx("<", r, n.S)))
+		return intVal(types.Typ[types.Int], r)
+	}
+	envFuncs["math/rand.Intn"] = envFuncs["(*math/rand.Rand).Intn"]
 	timeEnv()
 	envFuncs["(*sync.Pool).Put"] = nop
 	envFuncs["(*sync.Pool).Get"] = func(fc *FnCtx, fr *Frame, st *State, reach string, args []Val, call ssa.CallInstruction) Val {
